@@ -46,6 +46,13 @@ def plan(tier):
                     for ww in g:
                         items.append({'dim': 2, 'wave': w, 'mode': mode, 'shape': [h, ww],
                                       'Js': [1, 2] if tier == 'quick' else [1, 2, 3]})
+    # two channels: the grouped convolutions stack one filter pair per channel (adjoint and grad subsets per channel)
+    for w in ('db2', 'bior1.3'):
+        for mode in dwt.MODES:
+            for n in (5, 8):
+                items.append({'dim': 1, 'wave': w, 'mode': mode, 'shape': [n], 'Js': [1, 2], 'C': 2})
+            for hw in ((3, 4), (4, 4)):
+                items.append({'dim': 2, 'wave': w, 'mode': mode, 'shape': list(hw), 'Js': [1, 2], 'C': 2})
     for (a, b) in PAIRS:
         for mode in dwt.MODES:
             for (h, ww) in ([(4, 4), (5, 6), (6, 5), (7, 7)] if tier == 'quick' else [(h_, w_) for h_ in range(3, 10) for w_ in range(3, 10)]):
@@ -54,7 +61,7 @@ def plan(tier):
 
 
 def required_regimes(tier):
-    need = {'per_axis_filters', 'dim:1', 'dim:2', 'subset:high_only', 'subset:low_only', 'subset:finest_only', 'base:dense'}
+    need = {'per_axis_filters', 'channels:2', 'dim:1', 'dim:2', 'subset:high_only', 'subset:low_only', 'subset:finest_only', 'base:dense'}
     for m in dwt.MODES:
         for t in ('odd', 'even', 'lt_L', 'ge_L'):
             if (m, t) != ('reflect', 'lt_L'):
@@ -90,11 +97,12 @@ def run(item):
     dim, w, mode = item['dim'], item['wave'], item['mode']
     shape = tuple(item['shape'])
     pair = isinstance(w, (list, tuple))
+    C = int(item.get('C', 1))
     L = max(dwt.flen(x) for x in w) if pair else dwt.flen(w)
-    P = int(np.prod(shape))
+    P = int(np.prod(shape)) * C
     for J in item['Js']:
-        cfg = {'dim': dim, 'wave': w, 'mode': mode, 'shape': list(shape), 'J': J}
-        tags = ['dim:%d' % dim] + (['per_axis_filters'] if pair else [])
+        cfg = {'dim': dim, 'wave': w, 'mode': mode, 'shape': list(shape), 'J': J, 'C': C}
+        tags = ['dim:%d' % dim] + (['per_axis_filters'] if pair else []) + (['channels:2'] if C == 2 else [])
         for ax, s in enumerate(shape):
             tags += dwt.regimes_1d(s, dwt.flen(w[ax]) if pair else L, mode, J)
         fwd, inv = _mods(dim, w, mode, J)
@@ -103,7 +111,7 @@ def run(item):
             yl, yh = fwd(x)
             return [yl] + list(yh)
 
-        x0 = torch.zeros((1, 1) + shape)
+        x0 = torch.zeros((1, C) + shape)
         try:
             A, bshapes = jac.forward_matrix(f, [x0])
         except Exception:
@@ -114,7 +122,7 @@ def run(item):
         res['evals'] += P
         res.regime(*tags)
         # ---- forward transform: G = A^T at two base points
-        for bi, base in enumerate([x0, torch.as_tensor(_dense(shape, 1))]):
+        for bi, base in enumerate([x0, torch.as_tensor(_dense((C,) + shape, 1)).reshape((1, C) + shape)]):
             try:
                 G, M = jac.vjp_matrices(f, [base], [True])
             except Exception as e:
@@ -129,7 +137,7 @@ def run(item):
                 continue
             d = cmp_mats(G[0], A.T)
             if d is not None:
-                res.violation('fwd_backward_is_adjoint', dict(cfg, base=bi), d, tags, signature=_sig_fwd(dim, w, mode, J, shape, G[0]))
+                res.violation('fwd_backward_is_adjoint', dict(cfg, base=bi), d, tags, signature=_sig_fwd(dim, w, mode, J, shape, G[0], C))
             res.op(G[0])
         # ---- inverse transform on forward-compatible pyramids
         base = [torch.zeros((1,) + s) for s in bshapes]
@@ -157,7 +165,7 @@ def run(item):
         Gfull = np.concatenate(GS, axis=0)
         d = cmp_mats(Gfull, S.T)
         if d is not None:
-            res.violation('inv_backward_is_adjoint', cfg, d, tags, signature=_sig_inv(dim, w, mode, J, bshapes, oshape[0], Gfull))
+            res.violation('inv_backward_is_adjoint', cfg, d, tags, signature=_sig_inv(dim, w, mode, J, bshapes, oshape[0], Gfull, C))
         res.op(Gfull)
         # ---- every non-empty proper subset of arguments requiring grad
         if P <= 64:
@@ -197,7 +205,7 @@ def run(item):
 
 # ---- closed forms of known finding O2 (the padding's adjoint is missing from the hand-written backward) -------------------
 
-def _sig_fwd(dim, w, mode, J, shape, G):
+def _sig_fwd(dim, w, mode, J, shape, G, C=1):
     """O2a: in symmetric/reflect/periodic the backward of the forward DWT is exactly the transpose of the *zero-padded*
     analysis operator of the same configuration."""
     import torch
@@ -208,13 +216,13 @@ def _sig_fwd(dim, w, mode, J, shape, G):
     def f(x):
         yl, yh = fz(x)
         return [yl] + list(yh)
-    Az, _ = jac.forward_matrix(f, [torch.zeros((1, 1) + tuple(shape))])
+    Az, _ = jac.forward_matrix(f, [torch.zeros((1, C) + tuple(shape))])
     if Az.T.shape == G.shape and cmp_mats(G, Az.T) is None:
         return 'backward_equals_transpose_of_zero_padded_operator'
     return None
 
 
-def _sig_inv(dim, w, mode, J, bshapes, oshape, G):
+def _sig_inv(dim, w, mode, J, bshapes, oshape, G, C=1):
     """O2b: in symmetric/reflect/periodic the backward of the inverse DWT applies, level by level, the *padded* analysis bank
     with the synthesis filters (the true adjoint pads with zeros); the un-pad between levels back-propagates as zero
     extension. Composed here from single-level calls of the real forward module."""
@@ -242,7 +250,7 @@ def _sig_inv(dim, w, mode, J, bshapes, oshape, G):
             if j + 1 < J:
                 # shape of the (un-cropped) lowpass produced by the next coarser synthesis level
                 hsh = bshapes[1 + j + 1]
-                zl = torch.zeros((1, 1) + tuple(hsh[-dim:]))
+                zl = torch.zeros((1, C) + tuple(hsh[-dim:]))
                 zh = torch.zeros((1,) + tuple(hsh))
                 tgt = I1((zl, [zh])).shape[2:]
                 pad = []
